@@ -27,7 +27,9 @@ WORDS = ["play", "pause", "stop", "oneshot", "off", "track", "album", "auto", "a
          "1-2", "0-", "-5", "0.5-", "1.5-18446744073709551616", "-", "18446744073709551616-", "nan-nan", "é", "日本", "x" * 300,
          "2024-01-02T03:04:05Z", "9999-99-99T99:99:99Z", "2024-01-02T03:04:05+25:00", "2024-02-30T00:00:00Z", "2024-01-02T03:04:60Z",
          "+2024-01-02T03:04:05Z", "2024-01-02T03:04:05.999999999999999999999Z", "20240-01-02T03:04:05Z", "44100:16:2", "Artist", "artist",
-         "MUSICBRAINZ_TRACKID", "a b", "a-b_c"]
+         "MUSICBRAINZ_TRACKID", "a b", "a-b_c",
+         # name=value texts whose name is not ASCII (a split at the '=' must count bytes the way it cuts them)
+         "é=5", "größe=3", "评分=1", "\U0001F3B5=1", "é=", "=é", "aé=bé", "é==", "日本語=日本語", "a\u0301=1", "ß=ß=ß"]
 # long invalid values with a multi-byte character at every offset around the sizes at which an error message might be cut
 LONG = ["x" * pad + ch + "x" * 3 for pad in list(range(250, 260)) + [126, 127, 509, 510, 511, 1022, 1023] for ch in ("é", "日", "\U0001F600")] + ["é" * 300]
 VALUES = NUMS + WORDS + LONG
